@@ -1025,10 +1025,23 @@ func conformingGateStore(w *World, st *ssa.Store, sig bool, j int64) bool {
 			continue
 		}
 		nAtoms++
-		call, isCall := aff.vals[a].(*ssa.Call)
-		if !isCall || staticCallee(call) != ni || k != 1 {
+		if k != 1 {
 			return false
 		}
+		call, isCall := aff.vals[a].(*ssa.Call)
+		if isCall && staticCallee(call) == ni {
+			continue
+		}
+		// the count taken from the function numIndexed() itself hands it on from
+		// (`_, n := e.topics(); return n` – and New reads the same result of e.topics())
+		if ex, isEx := aff.vals[a].(*ssa.Extract); isEx {
+			if g, gi := delegateResult(ni); g != nil {
+				if ec, ok := ex.Tuple.(*ssa.Call); ok && staticCallee(ec) == g && ex.Index == gi {
+					continue
+				}
+			}
+		}
+		return false
 	}
 	return nAtoms == 1 && l.c == j
 }
@@ -1097,4 +1110,41 @@ func isByteSlice(t types.Type) bool {
 	}
 	b, ok := sl.Elem().Underlying().(*types.Basic)
 	return ok && b.Kind() == types.Uint8
+}
+
+// delegateResult: f's only return hands on result k of a call of a method g on f's own receiver.
+func delegateResult(f *ssa.Function) (*ssa.Function, int) {
+	rets := returnsOf(f)
+	if f == nil || len(rets) != 1 || len(f.Params) == 0 || len(returnValues(rets[0])) != 1 {
+		return nil, 0
+	}
+	v := stripConv(returnValues(rets[0])[0])
+	var call *ssa.Call
+	k := 0
+	switch x := v.(type) {
+	case *ssa.Extract:
+		call, _ = x.Tuple.(*ssa.Call)
+		k = x.Index
+	case *ssa.Call:
+		call = x
+	}
+	if call == nil || len(call.Call.Args) == 0 {
+		return nil, 0
+	}
+	g := staticCallee(call)
+	if g == nil || g.Blocks == nil || !isRepoFunc(g) {
+		return nil, 0
+	}
+	r := stripConv(call.Call.Args[0])
+	if u, isU := r.(*ssa.UnOp); isU && u.Op == token.MUL {
+		if al, isAl := u.X.(*ssa.Alloc); isAl {
+			if p := rootParam(cval{v: al}); p != nil {
+				r = p
+			}
+		}
+	}
+	if r != ssa.Value(f.Params[0]) {
+		return nil, 0
+	}
+	return g, k
 }
